@@ -2,7 +2,7 @@
 import json, os
 V = os.path.dirname(os.path.dirname(os.path.abspath(__file__)))
 
-HOOK_COMMITS = ["4ac80b46a", "2757ad450", "cc54a897a"]
+HOOK_COMMITS = ["4ac80b46a", "2757ad450", "cc54a897a", "c2179696b"]
 
 CHECKS = {}
 
